@@ -197,4 +197,24 @@ theorem mapM_ok {α β ε : Type} (f : α → Except ε β) :
         · exact hx
         · exact hall p hp
 
+/-- if every word decodes to (the image of) the instruction it came from, the whole program decodes
+    to the instruction list -/
+theorem mapM_some_of_zip {α β γ : Type} (f : β → Option γ) (g : α → γ) :
+    ∀ (l : List α) (ws : List β), ws.length = l.length →
+      (∀ p ∈ l.zip ws, f p.2 = some (g p.1)) → ws.mapM f = some (l.map g) := by
+  intro l
+  induction l with
+  | nil => intro ws hl _; cases ws with
+    | nil => simp [pure]
+    | cons _ _ => simp at hl
+  | cons x xs ih =>
+    intro ws hl hall
+    cases ws with
+    | nil => simp at hl
+    | cons w ws' =>
+      have hw : f w = some (g x) := hall (x, w) (by simp)
+      have hrest := ih ws' (by simpa using hl) (fun p hp => hall p (by simp [hp]))
+      rw [List.mapM_cons]
+      simp [hw, hrest, bind, Option.bind, pure]
+
 end BMV.Encode
